@@ -29,6 +29,7 @@ func init() {
 		PoolProb: 0.35,
 		Holds:    true,
 		DupNames: true,
+		BigSets:  15,
 	}
 	fw.Families["C05"] = func(k *fw.Case) { trace.RunCase(k, c05) }
 
